@@ -37,6 +37,98 @@ class ListV:
         return 'ListV(%r)' % (self.items,)
 
 
+def exc_matches(exc, names):
+    """does an exception of class ``exc`` (a name) match an except/suppress specification (names)?  Built-in classes
+    follow Python's hierarchy (KeyError is a LookupError, IOError is OSError); other names match by name"""
+    import builtins as _b
+    e_ = getattr(_b, exc.split('.')[-1], None)
+    for nm in names:
+        if nm == exc or nm.split('.')[-1] == exc.split('.')[-1]:
+            return True
+        c_ = getattr(_b, nm.split('.')[-1], None)
+        if isinstance(e_, type) and isinstance(c_, type) and issubclass(e_, BaseException) and issubclass(e_, c_):
+            return True
+    return False
+
+
+def _leaves(v, out):
+    for x in v.items:
+        if isinstance(x, ListV):
+            _leaves(x, out)
+        else:
+            out.append(x)
+    return out
+
+
+def sync_reshape(arr):
+    """numpy's reshape hands out a view: what is stored into the reshaped array (or one of its rows) is stored into
+    the array it was made from"""
+    root = getattr(arr, 'reshape_root', arr)
+    base = getattr(root, 'reshape_of', None)
+    if base is None:
+        return
+    flat = _leaves(root, [])
+    pos = [0]
+
+    def fill(v):
+        for k, x in enumerate(v.items):
+            if isinstance(x, ListV):
+                fill(x)
+            else:
+                v.items[k] = flat[pos[0]]
+                pos[0] += 1
+    fill(base)
+    sync_reshape(base)
+
+
+def make_set(I, items, n=None):
+    """a set of hashable abstract values: strings and decided-distinct numbers, insertion order kept"""
+    out = []
+    for x in items:
+        px = I.plain(x) if isinstance(x, (str,)) or type(x).__name__ == 'SegStr' else x
+        dup = False
+        for y in out:
+            if isinstance(px, str) or isinstance(y, str):
+                same_ = isinstance(px, str) and isinstance(y, str) and px == y
+            elif isinstance(px, Rat) and isinstance(y, Rat):
+                d_ = px - y
+                if d_.iszero():
+                    same_ = True
+                elif d_.is_const():
+                    same_ = False
+                else:
+                    raise Unsupported('set of symbolic numbers (equality undecided)', n)
+            elif isinstance(px, bool) or isinstance(y, bool) or px is None or y is None:
+                same_ = px is y
+            elif isinstance(px, ListV) and isinstance(y, ListV):
+                same_ = repr(px) == repr(y)
+            else:
+                same_ = px is y
+            dup = dup or same_
+        if not dup:
+            if isinstance(px, (DictV,)) or (isinstance(px, ListV) and getattr(px, 'is_array', False)):
+                raise _RaisedExc(Raised('TypeError', n))            # unhashable
+            out.append(px)
+    r_ = ListV(out)
+    r_.is_set = True
+    return r_
+
+
+def is_iter(v):
+    """a one-shot iterator (generator object, iter(...), zip/map object): what has been taken from it is gone"""
+    return isinstance(v, ListV) and (getattr(v, 'is_iterator', False) or getattr(v, 'is_generator', False))
+
+
+def take(v, n=None):
+    """the next n (default: all remaining) items of a ListV; an iterator loses them"""
+    if getattr(v, 'tainted', False):
+        raise Unsupported('an iterator whose position is not known (it was partly consumed through a generator)')
+    items = list(v.items) if n is None else list(v.items[:n])
+    if is_iter(v):
+        del v.items[:len(items)]
+    return items
+
+
 class Elem:
     """vector of unknown length; ``r`` is its generic element (Rat or ListV row)"""
 
@@ -45,6 +137,14 @@ class Elem:
 
     def __repr__(self):
         return 'Elem(%r)' % (self.r,)
+
+
+class SuperV:
+    """super() kept as a value: attribute access resolves after ``owner`` in the MRO of ``self_obj``"""
+
+    def __init__(self, self_obj, owner):
+        self.self_obj = self_obj
+        self.owner = owner
 
 
 class MaskV:
@@ -200,7 +300,8 @@ VISITED = set()      # qualified names of every function of the analysed package
 def numeric_table(module, node):
     """a dict literal with string keys whose values are numeric constant expressions (numbers, arithmetic over
     numbers and module constants such as Na)"""
-    if not node.keys or not all(isinstance(k, ast.Constant) and isinstance(k.value, str) for k in node.keys):
+    if not node.keys or not all(k is None or (isinstance(k, ast.Constant) and isinstance(k.value, str))
+                                for k in node.keys):
         return False
 
     def numeric(v):
@@ -211,7 +312,8 @@ def numeric_table(module, node):
         if isinstance(v, ast.UnaryOp):
             return numeric(v.operand)
         return isinstance(v, (ast.Name, ast.Attribute))
-    return all(numeric(v) for v in node.values)
+    return all(numeric(v) for k, v in zip(node.keys, node.values) if k is not None) and \
+        sum(1 for k in node.keys if k is not None) >= 1
 
 
 def unit_table(repo):
@@ -225,7 +327,8 @@ def unit_table(repo):
     if not cands:
         raise AnchorError('no table of conversion factors is reached from pmutt.constants.convert_unit')
     # several numeric tables (e.g. prefixes): the conversion factors are the one with the energy and length units
-    cands.sort(key=lambda c_: -sum(1 for k in c_[2].keys if k.value in ('J', 'kJ', 'eV', 'm', 'cm', 'bar', 'Pa', 's')))
+    cands.sort(key=lambda c_: -sum(1 for k in c_[2].keys if k is not None and
+                                   k.value in ('J', 'kJ', 'eV', 'm', 'cm', 'bar', 'Pa', 's')))
     return cands[0]
 
 
@@ -284,14 +387,19 @@ class Interp:
         um, _uname, ud = unit_table(self.repo)
         self.unit_one = set()
         self.unit_pow10 = {}
-        for k, v in zip(ud.keys, ud.values):
-            try:
-                num = fold_num(um, v)
-            except Unsupported:
-                continue
-            if isinstance(k, ast.Constant) and isinstance(k.value, str):
-                if num.exact and num.v == 1:
-                    self.unit_one.add(k.value)
+        from .fold import fold_table
+        try:
+            entries = fold_table(um, ud, {'Na': fold_num(um, um.assigns['Na'][-1])} if 'Na' in um.assigns else None)
+        except Unsupported:
+            entries = []
+            for k, v in zip(ud.keys, ud.values):
+                try:
+                    entries.append((k.value if isinstance(k, ast.Constant) else None, fold_num(um, v), v))
+                except Unsupported:
+                    continue
+        for key_, num, _v in entries:
+            if isinstance(key_, str) and num.exact and num.v == 1:
+                self.unit_one.add(key_)
         self.prefixes = {}
         if 'prefixes' in m.assigns and isinstance(m.assigns['prefixes'][-1], ast.Dict):
             pd = m.assigns['prefixes'][-1]
@@ -408,11 +516,15 @@ class Interp:
                 self._is_gen[id(fn)] = is_gen
             if is_gen:
                 fr.yields = []
+            def gen_result():
+                g_ = ListV(fr.yields)
+                g_.is_generator = True      # a generator object: consumed as it is iterated
+                return g_
             try:
                 fr.exec_block(body_wo_doc(fn))
             except _Return as r:
                 if is_gen:
-                    return ListV(fr.yields)
+                    return gen_result()
                 if memo_key is not None:
                     self.memo[memo_key] = r.value
                 return r.value
@@ -421,7 +533,7 @@ class Interp:
                     raise
                 return r.raised
             if is_gen:
-                return ListV(fr.yields)
+                return gen_result()
             return None
         finally:
             self.depth -= 1
@@ -553,7 +665,8 @@ class Interp:
                                    name=got[0].qual + '.__init__')
             if isinstance(r, Raised):
                 return r
-        elif any(d.split('(')[0].split('.')[-1] == 'dataclass' for k in ci.mro for d in k.decorators):
+        elif any(b_.split('.')[-1] == 'NamedTuple' for k in ci.mro for b_ in k.base_exprs) or \
+                any(d.split('(')[0].split('.')[-1] == 'dataclass' for k in ci.mro for d in k.decorators):
             # the __init__ a dataclass generates: fields in definition order (bases first), defaults from the class
             fields = []
             for k in reversed(ci.mro):
@@ -574,6 +687,8 @@ class Interp:
                         raise Unsupported('dataclass field(...) default', dflt, k.module.relpath)
                     vals[nm] = Frame(self, k.module, {}, k, None).ev(dflt)
                 o.attrs[nm] = vals[nm]
+            if any(b_.split('.')[-1] == 'NamedTuple' for k in ci.mro for b_ in k.base_exprs):
+                o.attrs['__fields__'] = ListV([f_[0] for f_ in fields])
             post = self.repo.find_method(ci, '__post_init__', missing_ok=True)
             if post:
                 self.call_function(post[0].module, post[1], [], {}, self_obj=o, owner=post[0])
@@ -604,6 +719,29 @@ class Interp:
         raise Unsupported('not a number: %r' % (v,))
 
     def binop(self, op, a, b):
+        if op == '@':
+            return self.native['numpy.dot'](self, None, [a, b], {}, None)
+        if op == '|' and isinstance(a, DictV) and isinstance(b, DictV):
+            out = type(a)() if type(a) in (DictV,) else DictV()
+            out.d.update(a.d)
+            out.keyobj.update(a.keyobj)
+            out.d.update(b.d)           # the right operand wins, keys keep their first position
+            out.keyobj.update(b.keyobj)
+            return out
+        if op == '//':
+            fa, fb = self.num(a), self.num(b)
+            if (fa.is_const() or fa.iszero()) and fb.is_const():
+                va = Fr(0) if fa.iszero() else fa.const_value()
+                return C(va // fb.const_value())
+            nm_ = 'FLOORDIV{%r,%r}' % (fa, fb)
+            return self.D.sym(nm_)
+        if op in ('&', '-') and isinstance(a, ListV) and isinstance(b, ListV) and getattr(a, 'is_set', False) \
+                and getattr(b, 'is_set', False):
+            inb = lambda x_: any((x_ == y_) if isinstance(x_, str) or isinstance(y_, str) else self.struct_eq(x_, y_)
+                                 for y_ in b.items)
+            r_ = ListV([x_ for x_ in a.items if inb(x_) == (op == '&')])
+            r_.is_set = True
+            return r_
         if op == '|' and isinstance(a, ListV) and isinstance(b, ListV) and getattr(a, 'is_set', False):
             r_ = ListV(list(a.items))
             for x in b.items:
@@ -960,11 +1098,25 @@ class Frame:
         if isinstance(st, ast.AugAssign):
             cur = self.ev(_load(st.target))
             v = self.ev(st.value)
+            if isinstance(cur, DictV) and isinstance(st.op, ast.BitOr):
+                # d |= other: in place, like d.update(other)
+                if isinstance(v, DictV):
+                    cur.d.update(v.d)
+                    cur.keyobj.update(v.keyobj)
+                elif isinstance(v, ListV) and all(isinstance(p_, ListV) and len(p_) == 2 for p_ in v.items):
+                    for p_ in v.items:
+                        cur.d[cur.nkey(p_.items[0])] = p_.items[1]
+                elif isinstance(v, ListV):
+                    raise _RaisedExc(Raised('ValueError', st))
+                else:
+                    raise _RaisedExc(Raised('TypeError', st))
+                return
             res = I.binop(_OPS[type(st.op)], cur, v)
             if isinstance(cur, ListV) and isinstance(res, ListV) and isinstance(st.target, ast.Name) and \
                     not getattr(cur, 'is_set', False):
                 # lists and numpy arrays are updated in place: every other name bound to the object sees it
                 cur.items[:] = list(res.items)
+                sync_reshape(cur)
                 view = getattr(cur, 'view_of', None)
                 if view is not None:
                     base_, ax_ = view
@@ -1008,10 +1160,20 @@ class Frame:
             self.exec_try(st)
             return
         if isinstance(st, ast.With):
+            suppress = []
             for item in st.items:
                 v = self.ev(item.context_expr)
+                if hasattr(v, 'pmv_suppress'):
+                    suppress.extend(v.pmv_suppress)
                 if item.optional_vars is not None:
                     self.assign(item.optional_vars, v)
+            if suppress:
+                try:
+                    self.exec_block(st.body)
+                except _RaisedExc as r_:
+                    if not exc_matches(r_.raised.exc, suppress):
+                        raise
+                return
             self.exec_block(st.body)
             return
         if isinstance(st, ast.Assert):
@@ -1119,28 +1281,71 @@ class Frame:
         raise Unsupported('del %s' % ast.unparse(t), t, self.module.relpath)
 
     def exec_match(self, st):
-        subj = self.ev(st.subject)
+        subj0 = self.ev(st.subject)
+        I = self.I
 
-        def literal(p):
-            v = self.ev(p.value)
-            return self.I.compare('==', subj, v, p)
-
-        def matches(p):
+        def matches(p, subj):
             if isinstance(p, ast.MatchValue):
-                return literal(p)
+                return I.compare('==', subj, self.ev(p.value), p)
             if isinstance(p, ast.MatchSingleton):
                 return subj is p.value
             if isinstance(p, ast.MatchOr):
-                return any(matches(q) for q in p.patterns)
+                return any(matches(q, subj) for q in p.patterns)
             if isinstance(p, ast.MatchAs):
-                if p.pattern is not None and not matches(p.pattern):
+                if p.pattern is not None and not matches(p.pattern, subj):
                     return False
                 if p.name is not None:
-                    self.env[p.name] = subj
+                    self.assign(ast.Name(id=p.name, ctx=ast.Store()), subj)
+                return True
+            if isinstance(p, ast.MatchSequence):
+                # lists and tuples (not strings, not dicts)
+                if not isinstance(subj, ListV) or getattr(subj, 'is_set', False):
+                    return False
+                stars = [k for k, q in enumerate(p.patterns) if isinstance(q, ast.MatchStar)]
+                items = subj.items
+                if not stars:
+                    return len(items) == len(p.patterns) and all(matches(q, x) for q, x in zip(p.patterns, items))
+                k = stars[0]
+                after = len(p.patterns) - k - 1
+                if len(items) < len(p.patterns) - 1:
+                    return False
+                ok = all(matches(q, x) for q, x in zip(p.patterns[:k], items[:k])) and \
+                    all(matches(q, x) for q, x in zip(p.patterns[k + 1:], items[len(items) - after:]))
+                if ok and p.patterns[k].name:
+                    self.env[p.patterns[k].name] = ListV(items[k:len(items) - after])
+                return ok
+            if isinstance(p, ast.MatchClass):
+                cls_v = self.ev(p.cls)
+                if not builtin_call(I, self, 'isinstance', [subj, cls_v], {}, p):
+                    return False
+                if p.patterns:
+                    if isinstance(cls_v, Builtin) and len(p.patterns) == 1:
+                        return matches(p.patterns[0], subj)          # str(x), int(x), ...: the subject itself
+                    raise Unsupported('positional class pattern', p, self.module.relpath)
+                for attr, q in zip(p.kwd_attrs, p.kwd_patterns):
+                    try:
+                        v = builtin_call(I, self, 'getattr', [subj, attr], {}, p)
+                    except _RaisedExc as r_:
+                        if r_.raised.exc == 'AttributeError':
+                            return False
+                        raise
+                    if not matches(q, v):
+                        return False
+                return True
+            if isinstance(p, ast.MatchMapping):
+                if not isinstance(subj, DictV):
+                    return False
+                for k_, q in zip(p.keys, p.patterns):
+                    kk = subj.nkey(self.ev(k_))
+                    if kk not in subj.d or not matches(q, subj.d[kk]):
+                        return False
+                if p.rest:
+                    used = {subj.nkey(self.ev(k_)) for k_ in p.keys}
+                    self.env[p.rest] = DictV({k_: v_ for k_, v_ in subj.d.items() if k_ not in used})
                 return True
             raise Unsupported('match pattern %s' % type(p).__name__, p, self.module.relpath)
         for case in st.cases:
-            if matches(case.pattern) and (case.guard is None or self.I.truth(self.ev(case.guard), case)):
+            if matches(case.pattern, subj0) and (case.guard is None or I.truth(self.ev(case.guard), case)):
                 self.exec_block(case.body)
                 return
 
@@ -1153,16 +1358,17 @@ class Frame:
         if cached is not None:
             return DictV(dict(cached))
         d = {}
-        for k, v in zip(node.keys, node.values):
-            if not (isinstance(k, ast.Constant) and isinstance(k.value, str)):
-                return self.ev(node)
-            try:
-                num = fold_num(self.module, v, I.table_env)
-            except Unsupported:
-                return self.ev(node)
-            atom = '%s[%s]' % (name, k.value)
+        from .fold import fold_table
+        try:
+            entries = fold_table(self.module, node, I.table_env)
+        except Unsupported:
+            return self.ev(node)
+        if not all(isinstance(k_, str) for k_, _n, _v in entries):
+            return self.ev(node)
+        for k_, num, _v in entries:
+            atom = '%s[%s]' % (name, k_)
             I.table_atoms[atom] = num
-            d[k.value] = I.D.sym(atom)
+            d[k_] = I.D.sym(atom)
         I._table_cache[id(node)] = dict(d)
         return DictV(d)
 
@@ -1186,7 +1392,8 @@ class Frame:
                     names = [ast.unparse(e) for e in h.type.elts]
                 else:
                     names = [ast.unparse(h.type)]
-                if names is None or r.raised.exc in names or 'Exception' in names:
+                if names is None or exc_matches(r.raised.exc, names) or (
+                        'Exception' in names and r.raised.exc not in ('KeyboardInterrupt', 'SystemExit', 'GeneratorExit')):
                     if h.name:
                         self.env[h.name] = r.raised
                     self.exec_block(h.body)
@@ -1218,9 +1425,12 @@ class Frame:
             if st.orelse:
                 raise Unsupported('for-else over a vector', st, self.module.relpath)
             return
-        seq = self.iter_items(it, st)
+        lazy = is_iter(it)
+        seq = list(it.items) if lazy else self.iter_items(it, st)
         broke = False
         for item in seq:
+            if lazy and it.items:
+                it.items.pop(0)         # taken from the iterator; a break leaves the rest in it
             self.assign(st.target, item)
             try:
                 self.exec_block(st.body)
@@ -1234,15 +1444,19 @@ class Frame:
 
     def iter_items(self, it, node=None):
         if isinstance(it, ListV):
-            return list(it.items)
+            return take(it)
         if isinstance(it, ZipV):
-            return it.items()
+            got = list(it.items())
+            it._rest = []                   # zip / enumerate objects are one-shot
+            return got
         if isinstance(it, DictV):
             return [it.okey(k) for k in it.d.keys()]
         if isinstance(it, str):
             return list(it)
         if isinstance(it, Obj) and '__lines__' in it.attrs:
             return list(it.attrs['__lines__'].items)
+        if isinstance(it, Obj) and '__fields__' in it.attrs:
+            return [it.attrs[f_] for f_ in it.attrs['__fields__'].items]        # a named tuple is a tuple
         if it is None or isinstance(it, (bool, Rat)):
             raise _RaisedExc(Raised('TypeError', node))     # not iterable
         if isinstance(it, Obj) and it.ci is not None and self.I.repo.find_method(it.ci, '__iter__', missing_ok=True):
@@ -1260,8 +1474,10 @@ class Frame:
             self.env[target.id] = v
             return
         if isinstance(target, (ast.Tuple, ast.List)):
+            if isinstance(v, Obj) and '__fields__' in v.attrs:
+                v = ListV(self.iter_items(v, target))
             if isinstance(v, ListV):
-                items = v.items
+                items = take(v)
             elif isinstance(v, tuple):
                 items = list(v)
             else:
@@ -1308,6 +1524,7 @@ class Frame:
                             base.items[p_] = v
                     else:
                         raise Unsupported('slice store of %r' % (v,), target, self.module.relpath)
+                    sync_reshape(base)
                     return
                 if isinstance(v, ListV) and (sl.step in (None, 1)):
                     base.items[sl] = list(v.items)
@@ -1324,16 +1541,21 @@ class Frame:
                 if isinstance(last, SliceV):
                     if last.full and isinstance(v, ListV) and len(v) == len(cur):
                         cur.items[:] = list(v.items)
+                        sync_reshape(cur)
+                        sync_reshape(base)
                         return
                     raise _RaisedExc(Raised('ValueError', target))      # shape mismatch in row assignment
                 if getattr(cur, 'dtype', None) in ('caller', 'int') and not (
                         isinstance(v, Rat) and v.is_const() and v.const_value().denominator == 1):
                     I.dtype_hazards.append((target, self.module.relpath))
                 cur.items[self.index(last, len(cur), target)] = v
+                sync_reshape(cur)
+                sync_reshape(base)
                 return
             if isinstance(base, ListV) and isinstance(idx, SliceV):
                 if idx.full and isinstance(v, ListV) and len(v) == len(base):
                     base.items[:] = list(v.items)           # a[:] = values
+                    sync_reshape(base)
                     return
                 if idx.full and isinstance(v, ListV):
                     raise _RaisedExc(Raised('ValueError', target))
@@ -1346,6 +1568,7 @@ class Frame:
                         isinstance(v, Rat) and v.is_const() and v.const_value().denominator == 1):
                     I.dtype_hazards.append((target, self.module.relpath))
                 base.items[i] = v
+                sync_reshape(base)
                 return
             if isinstance(base, DictV):
                 base.d[base.nkey(idx)] = v
@@ -1377,6 +1600,8 @@ class Frame:
     # ---- expressions -----------------------------------------------------
     def ev(self, n):
         I = self.I
+        if isinstance(n, ast.Constant) and n.value is Ellipsis:
+            return SliceV(True)         # a[i, ...]: keeps the remaining axes
         if isinstance(n, ast.Constant):
             v = n.value
             if isinstance(v, bool) or v is None or isinstance(v, str):
@@ -1399,7 +1624,7 @@ class Frame:
                 return MaskV(la.terms + rb.terms)
             if isinstance(la, bool) and isinstance(rb, bool):
                 return la and rb
-            raise Unsupported('operator & on %r, %r' % (la, rb), n, self.module.relpath)
+            return I.binop('&', la, rb)
         if isinstance(n, ast.BinOp):
             if type(n.op) not in _OPS:
                 raise Unsupported('operator', n, self.module.relpath)
@@ -1488,6 +1713,14 @@ class Frame:
                     out.is_array = True
                     out.ambiguous_eq = True
                     return out
+                if o in ('<', '<=', '>', '>=', '==', '!=') and isinstance(left, ListV) and isinstance(right, ListV) \
+                        and getattr(left, 'is_set', False) and getattr(right, 'is_set', False) and len(n.ops) == 1:
+                    def has(c_, x_):
+                        return any(I.struct_eq(x_, y_) if not isinstance(x_, str) else x_ == y_ for y_ in c_.items)
+                    sub_ = all(has(right, x_) for x_ in left.items)
+                    sup_ = all(has(left, x_) for x_ in right.items)
+                    return {'<=': sub_, '<': sub_ and not sup_, '>=': sup_, '>': sup_ and not sub_,
+                            '==': sub_ and sup_, '!=': not (sub_ and sup_)}[o]
                 if o in ('<', '<=', '>', '>=') and (getattr(left, 'kind', None) is not None or
                                                      getattr(right, 'kind', None) is not None):
                     # a data vector compared element by element: which elements pass is not one truth value
@@ -1495,6 +1728,12 @@ class Frame:
                         raise Unsupported('chained comparison of a data vector', n, self.module.relpath)
                     return MaskV([(o, left.r if isinstance(left, Elem) else left,
                                    right.r if isinstance(right, Elem) else right)])
+                if o in ('<', '<=', '>', '>=') and len(n.ops) == 1 and (
+                        (isinstance(left, Elem) and isinstance(left.r, Rat) and isinstance(right, Rat)) or
+                        (isinstance(right, Elem) and isinstance(right.r, Rat) and isinstance(left, Rat))):
+                    # every element of a generic vector relates to the number as its generic element does
+                    return Elem(I.compare(o, left.r if isinstance(left, Elem) else left,
+                                          right.r if isinstance(right, Elem) else right, n))
                 if not I.compare(o, left, right, n):
                     return False
                 left = right
@@ -1525,12 +1764,22 @@ class Frame:
             v = self.ev(n.value)
             self.assign(n.target, v)
             return v
+        if isinstance(n, ast.Set):
+            vals = []
+            for e in n.elts:
+                vals.extend(self.iter_items(self.ev(e.value), e) if isinstance(e, ast.Starred) else [self.ev(e)])
+            return make_set(I, vals, n)
         if isinstance(n, ast.ListComp):
             return self.listcomp(n)
         if isinstance(n, ast.GeneratorExp):
+            src_ = self.ev(n.generators[0].iter) if isinstance(n.generators[0].iter, ast.Name) else None
+            over_iter = is_iter(src_)
             g_ = self.listcomp(n)
             if isinstance(g_, ListV):
                 g_.is_generator = True      # may be consumed by next()
+                # evaluated eagerly here: when it runs over another one-shot iterator that one is drained now, which is
+                # only right if this generator is itself consumed to the end
+                g_.drains_other = src_ if over_iter else None
             return g_
         if isinstance(n, ast.DictComp):
             out = DictV()
@@ -1606,6 +1855,11 @@ class Frame:
                            frame_self=self.self_obj)
         if isinstance(n, ast.Slice):
             return SliceV(n.lower is None and n.upper is None and n.step is None)
+        if isinstance(n, ast.YieldFrom):
+            if getattr(self, 'yields', None) is None:
+                raise Unsupported('yield outside a generator frame', n, self.module.relpath)
+            self.yields.extend(self.iter_items(self.ev(n.value), n))
+            return None
         if isinstance(n, ast.Yield):
             if getattr(self, 'yields', None) is None:
                 raise Unsupported('yield outside a generator frame', n, self.module.relpath)
@@ -1654,6 +1908,8 @@ class Frame:
 
     def subscript(self, n):
         base = self.ev(n.value)
+        if hasattr(base, 'pmv_getitem'):
+            return base.pmv_getitem(self.I, self, self.ev(n.slice), n)
         if isinstance(base, SegStr) or (isinstance(base, str) and base in self.I.sym_strings):
             sb = self.I.seg(base)
 
@@ -1710,6 +1966,15 @@ class Frame:
                 return r
             raise Unsupported('slice of %r' % (base,), n, self.module.relpath)
         idx = self.ev(n.slice)
+        return self.getitem(base, idx, n)
+
+    def getitem(self, base, idx, n=None):
+        """base[idx] for evaluated operands (no slices)"""
+        if isinstance(base, Obj) and '__fields__' in base.attrs and isinstance(idx, Rat):
+            vals_ = [base.attrs[f_] for f_ in base.attrs['__fields__'].items]
+            return vals_[self.index(idx, len(vals_), n)]
+        if isinstance(base, Elem) and isinstance(idx, MaskV) and 'numpy.extract' in self.I.native:
+            return self.I.native['numpy.extract'](self.I, self, [idx, base], {}, n)     # a[mask] == np.extract(mask, a)
         if isinstance(base, ListV) and isinstance(idx, str):
             raise _RaisedExc(Raised('TypeError', n))
         if isinstance(base, ListV) and isinstance(idx, ListV) and idx.items and \
@@ -1756,6 +2021,12 @@ class Frame:
             k = base.nkey(idx)
             if k in base.d:
                 return base.d[k]
+            if isinstance(base, CounterV):
+                return C(0)                     # Counter.__missing__: zero, nothing stored
+            if isinstance(base, DefaultDictV) and base.factory is not None:
+                v_ = self.apply(base.factory, [], {}, n)
+                base.d[k] = v_                  # defaultdict stores what the factory made
+                return v_
             raise _RaisedExc(Raised('KeyError', n))
         if isinstance(base, TableRef):
             return base.lookup(self, idx, n)
@@ -1804,12 +2075,18 @@ class Frame:
                 full = al[1] + '.' + n.attr
                 if full in GLOBAL_ATTRS:
                     return GLOBAL_ATTRS[full](I)
+                if full in I.native:
+                    return NativeRef(full)          # the same model whether the function is called or handed on
                 if r is not None:
                     return self.entity(r, n)
                 if full in I.native:
                     return NativeRef(full)          # a library function used as a value (select = np.max if ...)
                 raise Unsupported('unknown global %s' % full, n, self.module.relpath)
         base = self.ev(n.value)
+        if isinstance(base, SuperV):
+            ci_ = base.self_obj if isinstance(base.self_obj, ClassInfo) else base.self_obj.ci
+            got = I.repo.find_method(ci_, n.attr, after=base.owner)
+            return FuncRef(got[0].module, got[1], base.self_obj, got[0])
         if base is None:
             raise _RaisedExc(Raised('AttributeError', n))
         if isinstance(base, Obj):
@@ -1838,10 +2115,17 @@ class Frame:
             tv_ = nd_transpose(base, list(reversed(range(len(sh)))))
             tv_.view_of = (base, list(reversed(range(len(sh)))))
             return tv_
-        if isinstance(base, (ListV, Elem, Rat, SumV, DictV, str, SegStr, TableRef)):
+        if isinstance(base, (ListV, Elem, Rat)) and n.attr == 'real' and (
+                not isinstance(base, ListV) or getattr(base, 'is_array', False)):
+            return base
+        if isinstance(base, (ListV, Elem, Rat, SumV, DictV, str, SegStr, TableRef, bool)):
             return BoundNative(base, n.attr)
         if isinstance(base, Builtin) and base.name == 'dict' and n.attr == 'fromkeys':
             return Builtin('dict.fromkeys')
+        if isinstance(base, Builtin) and base.name in ('str', 'list', 'dict', 'tuple', 'set', 'float', 'int'):
+            mname = n.attr
+            return _stdlib.CallableV(lambda I_, fr_, a, k, n_: bound_native(I_, fr_, BoundNative(a[0], mname),
+                                                                           list(a[1:]), k, n_), 'unbound ' + mname)
         if isinstance(base, Module):
             r = I.repo.lookup(base, n.attr)
             if r is None:
@@ -2056,6 +2340,8 @@ class Frame:
             qual = (fv.owner.qual + '.' if fv.owner else fv.module.name + '.') + fv.fn.name
             if qual in I.opaque_funcs:
                 return I.opaque_funcs[qual](I, self, args, kwargs, n)
+            if fv.owner is None and fv.closure is None and qual in I.native:
+                return I.native[qual](I, self, args, kwargs, n)
             if isinstance(fv.self_obj, Obj) and fv.fn.name in fv.self_obj.opaque_methods:
                 return fv.self_obj.opaque_methods[fv.fn.name](I, fv.self_obj, args, kwargs)
             is_static = any(ast.unparse(d) in ('staticmethod',) for d in fv.fn.decorator_list)
@@ -2076,6 +2362,11 @@ class Frame:
             return fv.obj.opaque_methods[fv.name](I, fv.obj, args, kwargs)
         if isinstance(fv, Obj) and '__call__' in fv.opaque_methods:
             return fv.opaque_methods['__call__'](I, fv, args, kwargs)
+        if hasattr(fv, 'pmv_call'):
+            return fv.pmv_call(I, self, args, kwargs, n)
+        if isinstance(fv, ExtRef):
+            raise Unsupported('call of the library function %s (no model)' % '.'.join(fv.alias[1:]), n,
+                              self.module.relpath)
         raise Unsupported('call of %r' % (fv,), n, self.module.relpath)
 
 
@@ -2188,6 +2479,8 @@ class ZipV:
         lists = []
         for s in self.seqs:
             if isinstance(s, ListV):
+                if getattr(s, 'tainted', False):
+                    raise Unsupported('zip over an iterator whose position is not known')
                 lists.append(s.items)
             elif isinstance(s, ZipV):
                 lists.append(s.items())
@@ -2197,8 +2490,24 @@ class ZipV:
                 lists.append(self.frame.iter_items(s))
             elif s is None or isinstance(s, (bool, Rat)):
                 raise _RaisedExc(Raised('TypeError'))       # not iterable
+            elif type(s).__name__ == 'CountV':
+                lists.append(None)                          # unbounded: filled below to the length of the others
             else:
                 raise Unsupported('zip over %r' % (s,))
+        if any(x is None for x in lists):
+            bounded = [len(x) for x in lists if x is not None]
+            if not bounded:
+                raise Unsupported('zip over unbounded iterators only')
+            m_ = min(bounded)
+            # zip asks the sources in order: a counter placed before the first exhausted source is asked once more
+            first_short_b = next(k for k, x in enumerate(lists) if x is not None and len(x) == m_)
+            for k, x in enumerate(lists):
+                if x is None:
+                    cnt_ = self.seqs[k]
+                    lists[k] = [cnt_.take(self.frame.I) for _ in range(m_ + (1 if k < first_short_b else 0))][:m_] \
+                        if self.frame is not None else None
+                    if lists[k] is None:
+                        raise Unsupported('zip over a counter without a frame')
         n = min(len(x) for x in lists) if lists else 0
         out = []
         for i in range(n):
@@ -2207,6 +2516,14 @@ class ZipV:
                 out.append(ListV([C(self.enumerate_start + i), tup.items[0]]))
             else:
                 out.append(tup)
+        # what zip takes from one-shot iterators among its sources is gone: n items from each, and one more from
+        # every source that precedes the first exhausted one (zip asks them first and drops what it got)
+        first_short = next((k for k, x in enumerate(lists) if len(x) == n), len(lists))
+        for k, s in enumerate(self.seqs):
+            if is_iter(s):
+                extra = 1 if (k < first_short and len(s.items) > n and self.enumerate_start is None) else 0
+                del s.items[:n + extra]
+        self._rest = list(out)          # a zip object is itself one-shot
         return out
 
 
@@ -2222,7 +2539,8 @@ def _load(t):
     return t2
 
 
-_OPS = {ast.Add: '+', ast.Sub: '-', ast.Mult: '*', ast.Div: '/', ast.Pow: '**', ast.Mod: '%', ast.BitOr: '|'}
+_OPS = {ast.Add: '+', ast.Sub: '-', ast.Mult: '*', ast.Div: '/', ast.Pow: '**', ast.Mod: '%', ast.BitOr: '|',
+        ast.MatMult: '@', ast.FloorDiv: '//', ast.BitAnd: '&'}
 _CMP = {ast.Eq: '==', ast.NotEq: '!=', ast.Lt: '<', ast.LtE: '<=', ast.Gt: '>', ast.GtE: '>=',
         ast.Is: 'is', ast.IsNot: 'is not', ast.In: 'in', ast.NotIn: 'not in'}
 
@@ -2267,8 +2585,8 @@ def builtin_call(I, fr, name, args, kwargs, n):
         if isinstance(v, Rat) and (v.is_const() or v.iszero()) and len(args) == 1:
             return C(round(v.const_value() if not v.iszero() else 0))
         raise Unsupported('round() of a symbolic value', n)
-    if name == 'iter':
-        return args[0]
+    if name == 'iter' and (isinstance(args[0], Obj) or is_iter(args[0])):
+        return args[0]              # files and iterators are their own iterators
     if name == 'open':
         fname = args[0] if args else kwargs.get('file')
         mode = args[1] if len(args) > 1 else kwargs.get('mode', 'r')
@@ -2364,6 +2682,8 @@ def builtin_call(I, fr, name, args, kwargs, n):
             return I.call_method(v, '__len__', [], {})
         if isinstance(v, Obj) and '__len__' in v.opaque_methods:
             return v.opaque_methods['__len__'](I, v, [], {})
+        if isinstance(v, Obj) and '__fields__' in v.attrs:
+            return C(len(v.attrs['__fields__'].items))
         if isinstance(v, Rat):
             raise _RaisedExc(Raised('TypeError', n))
         raise Unsupported('len of %r' % (v,), n)
@@ -2380,7 +2700,7 @@ def builtin_call(I, fr, name, args, kwargs, n):
             return ListV([])
         v = args[0]
         if isinstance(v, ListV):
-            return ListV(list(v.items))
+            return ListV(take(v))
         if isinstance(v, Elem):
             return v
         if isinstance(v, ZipV) and v.vector:
@@ -2468,6 +2788,8 @@ def builtin_call(I, fr, name, args, kwargs, n):
     if name == 'next' and args:
         it_ = args[0]
         if isinstance(it_, ListV) and (getattr(it_, 'is_iterator', False) or getattr(it_, 'is_generator', False)):
+            if getattr(it_, 'drains_other', None) is not None and len(it_.items) > 1:
+                it_.drains_other.tainted = True
             if it_.items:
                 return it_.items.pop(0)
             if len(args) > 1:
@@ -2481,6 +2803,8 @@ def builtin_call(I, fr, name, args, kwargs, n):
             if len(args) > 1:
                 return args[1]
             raise _RaisedExc(Raised('StopIteration', n))
+        if hasattr(it_, 'take') and type(it_).__name__ == 'CountV':
+            return it_.take(I)
         raise Unsupported('next() of %r' % (it_,), n)
     if name == 'map' and len(args) == 2:
         seq = args[1]
@@ -2500,6 +2824,12 @@ def builtin_call(I, fr, name, args, kwargs, n):
         v = args[0]
         if isinstance(v, ListV):
             vals = [I.truth(x, n) for x in v.items]
+            if is_iter(v):
+                # short-circuit: stops taking from the iterator at the first decisive item
+                stop = next((k_ for k_, t_ in enumerate(vals) if t_ == (name == 'any')), len(vals) - 1)
+                if getattr(v, 'drains_other', None) is not None and stop + 1 < len(vals):
+                    v.drains_other.tainted = True       # how far the inner iterator got is not tracked: unusable now
+                del v.items[:stop + 1]
             return any(vals) if name == 'any' else all(vals)
         if isinstance(v, Elem) and isinstance(v.r, bool):
             return v.r          # the same truth value for every element of a (non-empty) vector
@@ -2507,10 +2837,10 @@ def builtin_call(I, fr, name, args, kwargs, n):
     if name == 'set':
         v = args[0] if args else ListV([])
         if isinstance(v, ListV) and all(isinstance(I.plain(x), str) for x in v.items):
-            r_ = ListV(list(dict.fromkeys(I.plain(x) for x in v.items)))
+            r_ = ListV(list(dict.fromkeys(I.plain(x) for x in take(v))))
             r_.is_set = True
             return r_
-        raise Unsupported('set() of non-string items', n)
+        return make_set(I, fr.iter_items(v, n), n)
     if name == 'frozenset':
         v = args[0] if args else ListV([])
         items = fr.iter_items(v, n)
@@ -2599,6 +2929,8 @@ def builtin_call(I, fr, name, args, kwargs, n):
         return d
     if name in BUILTIN_EXC:
         return Raised(name, n)
+    if name == 'super' and not args and fr.self_obj is not None and fr.owner is not None:
+        return SuperV(fr.self_obj, fr.owner)
     if name == 'object' and not args and not kwargs:
         o = Obj('object()', closed=True)
         o.sentinel = True
@@ -2616,20 +2948,62 @@ class TypeOf:
         self.v = v
 
 
+ARRAY_METHOD_HOOK = None        # set by pmv.stdlib: methods of arrays / vectors / booleans
+
+
 def bound_native(I, fr, bn, args, kwargs, n):
     b, name = bn.base, bn.name
+    if ARRAY_METHOD_HOOK is not None:
+        done, val = ARRAY_METHOD_HOOK(I, fr, b, name, args, kwargs, n)
+        if done:
+            return val
     if isinstance(b, TableRef):
         return _table_method(I, fr, b, name, args, kwargs, n)
     if isinstance(b, ListV) and name == 'count' and len(args) == 1:
         return C(len([x for x in b.items if I.compare('==', x, args[0], n)]))
     if isinstance(b, ListV):
         if name == 'add' and getattr(b, 'is_set', False):
-            v = I.plain(args[0])
-            if not isinstance(v, str):
-                raise Unsupported('set.add of a non-string value', n)
-            if v not in b.items:
-                b.items.append(v)
+            b.items[:] = make_set(I, b.items + [args[0]], n).items
             return None
+        if getattr(b, 'is_set', False) and name in ('union', 'intersection', 'difference', 'update', 'issubset',
+                                                    'issuperset', 'isdisjoint', 'discard', 'remove', 'copy',
+                                                    'symmetric_difference', 'intersection_update',
+                                                    'difference_update'):
+            others = [make_set(I, fr.iter_items(a_, n), n) for a_ in args]
+
+            def has(c_, x_):
+                return any((x_ == y_) if isinstance(x_, str) or isinstance(y_, str) else I.struct_eq(x_, y_)
+                           for y_ in c_.items)
+            if name == 'copy':
+                return make_set(I, list(b.items), n)
+            if name in ('union', 'update'):
+                r_ = make_set(I, b.items + [x_ for o_ in others for x_ in o_.items], n)
+            elif name in ('intersection', 'intersection_update'):
+                r_ = make_set(I, [x_ for x_ in b.items if all(has(o_, x_) for o_ in others)], n)
+            elif name in ('difference', 'difference_update'):
+                r_ = make_set(I, [x_ for x_ in b.items if not any(has(o_, x_) for o_ in others)], n)
+            elif name == 'symmetric_difference':
+                o_ = others[0]
+                r_ = make_set(I, [x_ for x_ in b.items if not has(o_, x_)] + [x_ for x_ in o_.items if not has(b, x_)], n)
+            elif name == 'issubset':
+                return all(has(others[0], x_) for x_ in b.items)
+            elif name == 'issuperset':
+                return all(has(b, x_) for x_ in others[0].items)
+            elif name == 'isdisjoint':
+                return not any(has(others[0], x_) for x_ in b.items)
+            else:       # discard / remove
+                x0 = args[0]
+                hit = [k_ for k_, y_ in enumerate(b.items)
+                       if ((x0 == y_) if isinstance(x0, str) or isinstance(y_, str) else I.struct_eq(x0, y_))]
+                if not hit and name == 'remove':
+                    raise _RaisedExc(Raised('KeyError', n))
+                for k_ in reversed(hit):
+                    del b.items[k_]
+                return None
+            if name.endswith('update') or name == 'update':
+                b.items[:] = r_.items
+                return None
+            return r_
         if name == 'append':
             v = args[0]
             if fr.in_vec_loop:
@@ -2766,8 +3140,10 @@ def bound_native(I, fr, bn, args, kwargs, n):
         return b.replace(args[0], args[1], *([_as_int(args[2], n)] if len(args) == 3 else []))
     if isinstance(b, str) and name in ('startswith', 'endswith') and all(isinstance(a, str) for a in args):
         return getattr(b, name)(*args)
-    real = dir(dict) if isinstance(b, DictV) else dir(list) if isinstance(b, ListV) and not \
-        getattr(b, 'is_array', False) else dir(str) if isinstance(b, str) else None
+    real = dir(dict) if isinstance(b, DictV) else \
+        dir(frozenset if getattr(b, 'frozen', False) else set) if isinstance(b, ListV) and getattr(b, 'is_set', False) \
+        else dir(list) if isinstance(b, ListV) and not getattr(b, 'is_array', False) and not is_iter(b) \
+        else dir(str) if isinstance(b, str) else None
     if real is not None and name not in real:
         raise _RaisedExc(Raised('AttributeError', n))     # e.g. dict.to_dict(), list.tolist()
     raise Unsupported('method %s on %r' % (name, b), n)
@@ -2829,6 +3205,33 @@ def abstract_str_method(I, fr, b, name, args, kwargs, n):
         return C(r)
     if name in ('strip', 'lstrip', 'rstrip') and (not args or args == ['\n'] or args == [' ']):
         return I.plain(sb.strip(name, args[0] if args else None))
+    if name in ('removeprefix', 'removesuffix') and len(args) == 1 and isinstance(args[0], (str, SegStr)):
+        pre = I.seg(args[0])
+        if len(pre.segs) == 0:
+            return I.plain(sb)
+        k = len(pre.segs)
+        mine = sb.segs[:k] if name == 'removeprefix' else sb.segs[len(sb.segs) - k:]
+        if len(mine) == k and all((a_.kind == b_.kind == 'lit' and a_.text == b_.text) or (a_ is b_) or
+                                  (a_.kind == b_.kind == 'field' and a_.value == b_.value and a_.width == b_.width
+                                   and a_.cls == b_.cls)
+                                  for a_, b_ in zip(mine, pre.segs)):
+            rest = sb.segs[k:] if name == 'removeprefix' else sb.segs[:len(sb.segs) - k]
+            return I.plain(SegStr(list(rest)))
+        if pre.is_literal():
+            # a literal affix against abstract text: decided on the literal part it would have to match
+            lit_ = pre.literal()
+            edge = sb.segs[0] if name == 'removeprefix' else sb.segs[-1]
+            if edge.kind == 'lit':
+                if (edge.text.startswith(lit_) if name == 'removeprefix' else edge.text.endswith(lit_)):
+                    new_edge = edge.text[len(lit_):] if name == 'removeprefix' else edge.text[:len(edge.text) - len(lit_)]
+                    segs_ = ([Seg('lit', text=new_edge)] + sb.segs[1:]) if name == 'removeprefix' else \
+                        (sb.segs[:-1] + [Seg('lit', text=new_edge)])
+                    return I.plain(SegStr(segs_))
+                if len(edge.text) >= len(lit_):
+                    return I.plain(sb)              # the edge is literal and differs: nothing removed
+            I.hazards.append((n, '%s(%r) depends on user-controlled text %r' % (name, lit_, sb)))
+            return I.plain(sb)
+        raise Unsupported('%s of an abstract affix that is not the leading/trailing part' % name, n)
     if name in ('isdigit', 'isalpha'):
         if sb.is_literal():
             return getattr(sb.literal(), name)()
@@ -3217,6 +3620,21 @@ class CounterV(DictV):
     """collections.Counter with symbolic totals (non-positive totals are NOT dropped here)"""
 
 
+class DefaultDictV(DictV):
+    """collections.defaultdict: a missing key is filled by the factory on first read"""
+    factory = None
+
+
+def _defaultdict(I, fr, args, kwargs, n):
+    d_ = DefaultDictV()
+    d_.factory = args[0] if args else None
+    if len(args) > 1 and isinstance(args[1], DictV):
+        d_.d.update(args[1].d)
+        d_.keyobj.update(args[1].keyobj)
+    d_.d.update(kwargs)
+    return d_
+
+
 def _counter(I, fr, args, kwargs, n):
     c_ = CounterV()
     if args:
@@ -3283,7 +3701,17 @@ def _arg_extremum(which):
         if ax == 1:
             r = ListV([one(row.items) for row in v.items])
         elif ax == 0:
-            r = ListV([one(list(col)) for col in zip(*[row.items for row in v.items])])
+            def along0(rows):
+                # reduce over the first axis, keeping every further axis
+                if rows and all(isinstance(x, ListV) for x in rows[0].items):
+                    out_ = ListV([along0([ListV(list(r_.items[k_].items)) if False else r_.items[k_] for r_ in rows])
+                                  for k_ in range(len(rows[0].items))])
+                    out_.is_array = True
+                    return out_
+                out_ = ListV([one(list(col)) for col in zip(*[row.items for row in rows])])
+                out_.is_array = True
+                return out_
+            r = along0(list(v.items))
         else:
             raise Unsupported('axis %d' % ax, n)
         r.is_array = True
@@ -3390,6 +3818,8 @@ def _np_mean(I, fr, args, kwargs, n):
 
 def _np_roots(I, fr, args, kwargs, n):
     co = _arg(args, kwargs, 0, 'p')
+    if isinstance(co, Obj) and '__fields__' in co.attrs:
+        co = ListV(fr.iter_items(co, n))            # a (named) tuple of coefficients
     if not isinstance(co, ListV):
         raise Unsupported('np.roots operand', n)
     name = 'ROOT#%d' % (len(I.roots) + 1)
@@ -3933,6 +4363,7 @@ NATIVE = {
     're.sub': _re_generic('sub'),
     're.finditer': _re_generic('finditer'),
     'collections.Counter': _counter,
+    'collections.defaultdict': _defaultdict,
     'numpy.any': _np_anyall('any'),
     'numpy.all': _np_anyall('all'),
     'numpy.linspace': _np_linspace,
@@ -4065,3 +4496,6 @@ def translate(repo, qual, env_args, obj=None, order=None, interp=None):
     if obj is None:
         obj = Obj('self', ci)
     return I, I.call_method(obj, fname, [], env_args)
+
+
+from . import stdlib as _stdlib      # noqa: E402,F401  (registers further library models into NATIVE)
